@@ -139,7 +139,13 @@ func (s *Slice[T]) splice(start, deleteCount int, insert ...T) ([]T, error) {
 	removed := make([]T, deleteCount)
 	copy(removed, s.elements[start:start+deleteCount])
 
-	s.elements = append(s.elements[:start], append(insert, s.elements[start+deleteCount:]...)...)
+	// assemble in a fresh array: append(insert, tail...) would write the tail
+	// into the spare capacity of the caller-owned `insert` slice
+	tail := s.elements[start+deleteCount:]
+	merged := make([]T, 0, start+len(insert)+len(tail))
+	merged = append(merged, s.elements[:start]...)
+	merged = append(merged, insert...)
+	s.elements = append(merged, tail...)
 	return removed, nil
 }
 
